@@ -14,8 +14,8 @@ ASSUMPTIONS = [
     "for every family, every applicable skglm route (solver x strategy, and the estimator) and an independent reference "
     "(scikit-learn Lasso / ElasticNet / MultiTaskLasso / LogisticRegression(liblinear) / LinearSVC(hinge), celer GroupLasso, scipy HiGHS "
     "linear programme for quantile regression, scaled-Lasso alternation over scikit-learn Lasso for the square-root Lasso) solve the same documented objective (mc/ref)",
-    "oracle = theorems of convexity: (a) the recomputed violation nu of a route that claims convergence is <= c_s * tol with c_s = 1 for "
-    "the C01 solvers, 10 for FISTA (its stopping value uses the gradient at the previous extrapolated point), (b) F(w) - F(v) <= "
+    "oracle = theorems of convexity: (a) the recomputed violation nu of a route that claims convergence is <= tol (C01 solvers and "
+    "FISTA), (b) F(w) - F(v) <= "
     "nu * ||w - v||_1 for the reference solution v and every other route's solution, (c) coefficients agree when the problem is "
     "strongly convex; non-smooth datafits (pinball, sqrt at zero residual) are compared through objective values (1e-6 relative)",
 ]
@@ -217,7 +217,7 @@ def exec_group(params):
             strat = "subdiff"
             nu = RC.violation(prob, w, strat, "cd")[0]
             nus[rname] = nu
-            c_s = 10.0 if sspec["name"] == "FISTA" else (10.0 * (1 + np.linalg.norm(X, 2)) ** 2 if sspec["name"] == "PDCD_WS" else 1.0)
+            c_s = 1.0 if sspec["name"] == "FISTA" else (10.0 * (1 + np.linalg.norm(X, 2)) ** 2 if sspec["name"] == "PDCD_WS" else 1.0)
             scale = 1.0 + float(np.abs(prob["X"]).sum()) * (1.0 + float(np.abs(prob["y"]).max()))
             if sspec["name"] not in ("PDCD_WS",) and not (C.strategy_of(sspec) == "fixpoint") and nu > c_s * tol * (1 + 1e-6) + 1e-10 * scale:
                 out.append(("violation_above_margin", rname, dict(nu=nu, stop=res["stop_crit"]), f"<= {c_s} * {tol}"))
@@ -254,10 +254,21 @@ def exec_group(params):
         with warnings.catch_warnings():
             warnings.simplefilter("ignore")
             m = LinearSVC(loss="hinge", C=params["pspec"]["alpha"], fit_intercept=False, tol=1e-10, max_iter=2000000, dual=True).fit(X, y)
+        Cc = params["pspec"]["alpha"]
+
+        def P(b):                                            # documented primal: 1/2 ||b||^2 + C sum hinge
+            return 0.5 * float(b @ b) + Cc * float(np.maximum(0.0, 1.0 - y * (X @ b)).sum())
+        bref = m.coef_.ravel()
         for a, wd in sols.items():
             primal = (X * y[:, None]).T @ wd
-            if np.max(np.abs(primal - m.coef_.ravel())) > 1e-3 * (1 + np.max(np.abs(primal))):
-                out.append(("primal_differs_from_reference", a, primal.tolist(), m.coef_.ravel().tolist()))
+            dual_val = float(wd.sum() - 0.5 * primal @ primal)            # weak duality: P* >= dual value of any feasible point
+            Pa, Pr = P(primal), P(bref)
+            if Pa - Pr > 1e-6 * (1 + abs(Pr)):
+                out.append(("primal_worse_than_reference", a, dict(primal=primal.tolist(), objective=Pa), dict(reference=bref.tolist(), objective=Pr)))
+            # P is 1-strongly convex: ||b - b*|| <= sqrt(2 (P(b) - P*)); the reference (liblinear) may itself be inexact on badly scaled designs
+            allowed = np.sqrt(2 * max(Pa - dual_val, 0.0)) + np.sqrt(2 * max(Pr - dual_val, 0.0)) + 1e-6 * (1 + np.max(np.abs(primal)))
+            if np.linalg.norm(primal - bref) > allowed:
+                out.append(("primal_differs_from_reference", a, primal.tolist(), bref.tolist()))
     return out, sols
 
 
